@@ -57,6 +57,10 @@ class ModuleInfo:
             self.tree = ast.parse(source)
         except SyntaxError as e:  # the variant / tree does not compile
             raise AnalysisError(f"{rel}: does not parse: {e}") from e
+        if os.environ.get("MXVERIF_NO_NORMALISE") != "1":
+            from .normalise import normalise_module
+
+            self.tree = normalise_module(self.tree, rel)
         self.functions: dict[str, ast.FunctionDef] = {}
         self.classes: dict[str, ast.ClassDef] = {}
         self.assigns: dict[str, ast.expr] = {}
